@@ -970,7 +970,7 @@ class Variable(Expression):
 
     def _relink_scalar_variables(self):
         if not self.is_proper():
-            pass
+            return
         svs = self.scalar_variables()
         for sv in svs:
             sv.parent = self
